@@ -163,7 +163,7 @@ func checkC03(c *Ctx) {
 	maxR := "2"
 	sk := "150"
 	if !c.Quick() {
-		sk = "3"
+		sk = "1"
 	}
 	// one TLC run: the refinement invariant over every RowSet, and (sampled) the RowSets to send to the emulator
 	mc := cfg{Spec: "Spec", Constants: map[string]string{"MaxRanges": maxR, "DumpEdges": "TRUE", "SampleK": sk}, Constraint: "Constr", Invariants: []string{"InvPlan", "InvInvalid"}}
@@ -178,6 +178,7 @@ func checkC03(c *Ctx) {
 		}
 	}
 	c.Extra("tlc_rowsets_replayed", len(rowsets))
+	nTlc := len(rowsets)
 	// random wider RowSets
 	nRand := 600
 	if !c.Quick() {
@@ -206,7 +207,8 @@ func checkC03(c *Ctx) {
 	for i, rs := range rowsets {
 		if cur == nil {
 			st := stored[0]
-			if g.chance(0.35) {
+			// (thorough tier: every RowSet of the model's universe runs against the full adversarial key set)
+			if g.chance(0.35) && (c.Quick() || i >= nTlc) {
 				st = stored[1+g.pick(3)]
 			}
 			cur = []bt.Op{createOp(btTable)}
@@ -281,8 +283,8 @@ func checkC03(c *Ctx) {
 		c.AddEval(1)
 		c.Nontrivial(describe(p))
 	}
-	c.exhaustive = false
-	c.Extra("exhaustive_scope", "the model's refinement statement is checked for every RowSet of the universe (406 808 RowSets x 3 stored-key sets); the replay on the real emulator covers a seeded sample of it in the quick tier and one in three in the thorough tier")
+	c.exhaustive = !c.Quick()
+	c.Extra("exhaustive_scope", "the model's refinement statement is checked for every RowSet of the universe (406 808 RowSets x 3 stored-key sets) in both tiers; on the real emulator the thorough tier executes every one of the 406 808 RowSets (on the full adversarial key set, every engine; limit and row-emptying filter drawn at random), the quick tier a seeded sample; random wider RowSets, multi-message scans and SampleRowKeys cases are sampled")
 	c.Extra("engines", allEngines)
 	c.btValidate("C03", allEngines, progs, nil)
 	c.Assume("TLC, the Json community module and the harness's request encoder / chunk decoder are trusted (the raw chunk stream is additionally decoded and checked by the ChunkSM specification on a sample of the reads)")
